@@ -31,6 +31,19 @@ def windows(p, malformed=False):
           (W8 - 16, 0, 16, 5), (0, 255, 8, 2) if p.H > 257 else (0, 1, 8, 2)]
     if p.W > 264:
         ws.append((264, 10, 8, 8))
+    # byte-boundary windows: ending exactly at / starting at / straddling 256, 512, 768 in y and in x; wider than 255
+    # pixels, taller than 255 rows; exactly reaching the bottom and the right edge (appended: earlier indices are used
+    # by the alphabet of the Coq specs and must not move)
+    for B in (256, 512, 768):
+        if p.H > B + 8:
+            ws += [(8, B - 6, 16, 6), (8, B, 16, 4), (8, B - 3, 16, 8)]
+        if W8 > B + 16:
+            ws += [(B - 16, 6, 16, 3), (B, 6, 16, 3), (B - 8, 6, 24, 3)]
+    if W8 >= 272:
+        ws.append((0, 9, 264, 2))
+    if p.H >= 264:
+        ws.append((16, 3, 8, 258))
+    ws += [(8, p.H - 4, 16, 4), (W8 - 24, 7, 24, 3)]
     if malformed:
         ws += [(3, 0, 8, 1), (0, 0, 0, 1), (0, 0, 8, 0), (p.W, 0, 8, 1), (0, p.H, 8, 1), (8, 8, 12, 3),
                (0, 0, p.W + 8, 1), (4294967288, 0, 16, 1), (0, 4294967295, 8, 2), (0, 256, 8, 1),
